@@ -112,8 +112,8 @@ theorem C05_date_uses_layout (ext : Ext) (text obj field s : Bytes) (a : ExtA)
 
 /-! ### content rules -/
 
-theorem C05_unique_string (text obj field s : Bytes) :
-    ∃ out, ruleUnique text obj field (.str s) = .ok out ∧ (out = [] ↔ allDistinct (Bytes.splitByte COMMA s) = true) := by
+theorem C05_unique_string (ext : Ext) (text obj field s : Bytes) :
+    ∃ out, ruleUnique ext text obj field (.str s) = .ok out ∧ (out = [] ↔ allDistinct (Bytes.splitByte COMMA s) = true) := by
   unfold ruleUnique
   rcases parseValidNameKV text with ⟨k, v, m⟩
   simp only [bind, Except.bind, pure, Except.pure]
